@@ -1130,6 +1130,24 @@ impl Obs for C15 {
         ensure!(side == s.is_p1_turn_to_move(), "C15:side", "parsed side to move differs at {}", v.describe());
         ensure!(mn == s.move_number(), "C15:move_number", "parsed move number {} differs from {} at {}", mn, s.move_number(), v.describe());
         ensure!(reprint == printed, "C15:reprint", "printed form of the parsed state differs at {}:\n{}\nvs\n{}", v.describe(), reprint, printed);
+        // printing under formatter flags (width, alignment, fill, sign, alternate, zero): the text is the
+        // plain diagram (possibly padded as a whole), or at least parses back to the same position
+        if v.m.board.fingerprint() % 4 == (mn as u64) % 4 {
+            let outs = guard(|| crate::textprops::flagged_outputs(s, &[1, 24, 300])).map_err(|p| Fail::new("C15:print_panic", format!("{} under formatter flags at {}", p, v.describe())))?;
+            for (spec, out, fills) in outs {
+                if crate::textprops::is_padded_whole(&out, &printed, fills) {
+                    continue;
+                }
+                st.bump("flagged_print_differs");
+                let q = guard(|| out.parse::<GameState>()).map_err(|p| Fail::new("C15:parse_panic", format!("{} on {:?}", p, out)))?;
+                let same = match q {
+                    Ok(q) => guard(|| read_board(q.piece_board()).ok() == Some(sb.clone()) && q.is_p1_turn_to_move() == side && q.move_number() == mn && q.to_string() == printed).unwrap_or(false),
+                    Err(_) => false,
+                };
+                ensure!(same, "C15:flagged_print", "printed with {} the state {} gives a text that is neither the plain diagram (padded as a whole) nor parses back to the same position:\n{}", spec, v.describe(), out);
+            }
+            st.bump("flagged_prints_checked");
+        }
         if !v.m.setup && v.m.step == 0 {
             let h = guard(|| s.transposition_hash()).map_err(|p| Fail::new("C15:panic", p))?;
             ensure!(h == phash, "C15:hash", "transposition hash {:#018x} of the parsed state differs from {:#018x} at {}", phash, h, v.describe());
@@ -1167,6 +1185,22 @@ impl Obs for C19 {
         guard(|| e.transposition_hash()).map_err(|p| Fail::new("C19:transposition_hash", format!("{} at {}", p, d())))?;
         guard(|| e.to_string()).map_err(|p| Fail::new("C19:to_string", format!("{} at {}", p, d())))?;
         guard(|| (e.is_p1_turn_to_move(), e.move_number(), e.is_play_phase(), e.piece_board().trapped_piece_bits())).map_err(|p| Fail::new("C19:getters", format!("{} at {}", p, d())))?;
+        // the trait implementations are public queries as well: comparison with an equal state (a
+        // clone) and with a different one, hashing, use as a key of a hash set, Debug output
+        guard(|| {
+            use std::hash::{Hash, Hasher};
+            let c = e.clone();
+            let same = *e == c;
+            let mut h = std::collections::hash_map::DefaultHasher::new();
+            e.hash(&mut h);
+            let hv = h.finish();
+            let mut set = std::collections::HashSet::new();
+            set.insert(c);
+            let found = set.contains(e);
+            let dbg = format!("{:?}", e).len();
+            (same, hv, found, dbg)
+        })
+        .map_err(|p| Fail::new("C19:traits", format!("==, Hash, HashSet lookup or Debug: {} at {}", p, d())))?;
         if !v.m.setup {
             for i in 0..=v.m.step {
                 guard(|| e.piece_board_for_step(i).all_pieces).map_err(|p| Fail::new("C19:piece_board_for_step", format!("step {}: {} at {}", i, p, d())))?;
@@ -1191,6 +1225,7 @@ impl Obs for C19 {
             guard(|| e.trapped_animal_for_action(a)).map_err(|p| Fail::new("C19:trapped_animal_for_action", format!("{} for {} at {}", p, action_text(a), d())))?;
             let n = guard(|| e.take_action(a)).map_err(|p| Fail::new("C19:take_action", format!("{} for {} at {}", p, action_text(a), d())))?;
             guard(|| n.transposition_hash()).map_err(|p| Fail::new("C19:transposition_hash", format!("{} after {} at {}", p, action_text(a), d())))?;
+            guard(|| (n == *e, *e == n)).map_err(|p| Fail::new("C19:traits", format!("comparing the state with its successor: {} after {} at {}", p, action_text(a), d())))?;
         }
         // ---- statistics
         let mut nt = false;
